@@ -37,10 +37,12 @@ IsAlt(m) == La(m) \/ Ra(m)
 IsAltGr(m) == Ag(m)
 IsCaps(m) == Sh(m) # Cl(m)
 
-(* canonical member of m's abstract class <<Shift, Ctrl, AltGr, CapsLock, NumLock (numpad only)>>: *)
+(* canonical member of m's abstract class <<Shift, Ctrl, AltGr, CapsLock, NumLock (numpad keys only -  *)
+(* all 17 of them: C11 allows any numpad key to look at NumLock; C15 separately pins the operators and  *)
+(* Enter)>>:                                                                                          *)
 (* left Shift, left Ctrl, right Alt, CapsLock, NumLock; hidden flag and lone left Alt dropped  *)
 Rep(k, m) == (IF Sh(m) THEN 1 ELSE 0) + (IF Ct(m) THEN 4 ELSE 0) + (IF Ag(m) THEN 128 ELSE 0)
-           + (IF Cl(m) THEN 32 ELSE 0) + (IF (k \in NumLockKeys) => Nl(m) THEN 16 ELSE 0)
+           + (IF Cl(m) THEN 32 ELSE 0) + (IF (k \in NumpadKeys) => Nl(m) THEN 16 ELSE 0)
 NoCtrl(m) == m - (IF B(m, 2) THEN 4 ELSE 0) - (IF B(m, 3) THEN 8 ELSE 0)
 NoCaps(m) == m - (IF Cl(m) THEN 32 ELSE 0)
 NoShift(m) == m - (IF B(m, 0) THEN 1 ELSE 0) - (IF B(m, 1) THEN 2 ELSE 0)
